@@ -165,7 +165,7 @@ func runC02(r *sim.Run) {
 	faultMode := t.Intn(3)
 
 	// ---- the object
-	g := &gen{t: t, budget: 24, taint: c.taint, probe: r.Probe}
+	g := &gen{t: t, budget: 24, taint: c.taint, probe: r.Probe, lits: true}
 	obj := g.object(0, t.Range(1, 5))
 	switch t.Intn(6) { // unsigned
 	case 1, 2:
@@ -355,7 +355,7 @@ func (c *c02) sign(e entity, where string) {
 func (c *c02) editUnsigned(h int) {
 	r, t := c.r, c.t
 	m := c.model()
-	g := &gen{t: t, budget: 8, taint: c.taint, probe: r.Probe}
+	g := &gen{t: t, budget: 8, taint: c.taint, probe: r.Probe, lits: true}
 	var what string
 	switch t.Intn(4) {
 	case 0:
@@ -395,7 +395,31 @@ func editable(m map[string]any) []string {
 
 // different returns a value that differs (as a JSON value) from old.
 func (c *c02) different(old any) any {
-	g := &gen{t: c.t, budget: 6, taint: c.taint, probe: c.r.Probe}
+	g := &gen{t: c.t, budget: 6, taint: c.taint, probe: c.r.Probe, lits: true}
+	if n, ok := old.(json.Number); ok && c.t.Bool() {
+		// a number close by: the other sign (for the largest magnitudes also in
+		// another spelling) - numerically different, so a change
+		s := n.String()
+		if i := strings.IndexAny(s, "eE"); i > 0 && i+1 < len(s) && s[i+1] == '-' && c.t.Bool() {
+			// the other sign of the exponent: 1e-05 -> 1e05
+			c.r.Probe("tamper_exponent_sign_flipped")
+			return json.Number(s[:i+1] + s[i+2:])
+		}
+		if strings.Trim(s, "-0.eE+") != "" { // not a zero
+			neg := strings.HasPrefix(s, "-")
+			mag := strings.TrimPrefix(s, "-")
+			if strings.HasPrefix(mag, "9223372036854775808") && c.t.Bool() {
+				mag = sim.Pick(c.t, []string{"9223372036854775808", "9223372036854775808.0", "9.223372036854775808e18", "9223372036854775808e0"})
+			}
+			if neg {
+				s = mag
+			} else {
+				s = "-" + mag
+			}
+			c.r.Probe("tamper_number_sign_flipped")
+			return json.Number(s)
+		}
+	}
 	for i := 0; i < 4; i++ {
 		v := g.value(2)
 		if ref.Render(v) != ref.Render(old) {
